@@ -178,10 +178,12 @@ func runC18(r *ev.Run) {
 
 // c18ExchangeFamily enumerates, for three set-ups, every assignment of up to k
 // men to the slots around a target square T:
-//   capture: T=d5 holds a black man, White (and mirrored: Black) captures on it;
-//   quiet:   T=d5 is empty, a man moves onto the attacked square;
-//   ep:      black pawn d5 has just double-pushed (target d6), white pawn e5
-//            captures en passant; slots include the squares behind the captured pawn.
+//
+//	capture: T=d5 holds a black man, White (and mirrored: Black) captures on it;
+//	quiet:   T=d5 is empty, a man moves onto the attacked square;
+//	ep:      black pawn d5 has just double-pushed (target d6), white pawn e5
+//	         captures en passant; slots include the squares behind the captured pawn.
+//
 // Slots: distance 1 and 2 along the eight rays of T (line slots take R, Q and a
 // blocking N; diagonal slots take B, Q, P and a blocking N) and four knight squares.
 // Only moves whose destination is T are judged (all thresholds).
